@@ -35,6 +35,25 @@ def severity_table():
             for s in n.body:
                 if isinstance(s, ast.Assign) and isinstance(s.value, ast.Constant):
                     sev_values[s.targets[0].id] = s.value.value
+    # module-level severity helpers of the shape
+    #   def h(old, new): if new.required and not old.required: return S.X \n return S.Y
+    # (the element BECOMES required: its default value was removed) -> (X when it becomes required, Y otherwise)
+    helpers = {}
+    for n in tree.body:
+        if isinstance(n, ast.FunctionDef) and n.name.endswith("_severity"):
+            b = [x for x in n.body if not (isinstance(x, ast.Expr) and isinstance(x.value, ast.Constant))]
+            ok = (len(n.args.args) == 2 and len(b) == 2 and isinstance(b[0], ast.If) and isinstance(b[1], ast.Return)
+                  and isinstance(b[0].test, ast.BoolOp) and isinstance(b[0].test.op, ast.And) and len(b[0].test.values) == 2
+                  and len(b[0].body) == 1 and isinstance(b[0].body[0], ast.Return) and not b[0].orelse)
+            if ok:
+                o_name, n_name = n.args.args[0].arg, n.args.args[1].arg
+                t1, t2 = b[0].test.values
+                ok = (isinstance(t1, ast.Attribute) and t1.attr == "required" and getattr(t1.value, "id", None) == n_name
+                      and isinstance(t2, ast.UnaryOp) and isinstance(t2.op, ast.Not) and isinstance(t2.operand, ast.Attribute)
+                      and t2.operand.attr == "required" and getattr(t2.operand.value, "id", None) == o_name)
+            if not ok:
+                raise py2lean.Untranslatable("severity helper %s is not `if new.required and not old.required: return X; return Y`" % n.name)
+            helpers[n.name] = (sev_values[b[0].body[0].value.attr], sev_values[b[1].value.attr])
     for n in tree.body:
         if isinstance(n, ast.ClassDef) and any(isinstance(b, ast.Name) and b.id == "SchemaChange" for b in n.bases):
             static = None
@@ -47,6 +66,10 @@ def severity_table():
                         if (isinstance(a, ast.Assign) and isinstance(a.targets[0], ast.Attribute)
                                 and a.targets[0].attr == "severity"):
                             v = a.value
+                            if isinstance(v, ast.Call) and isinstance(v.func, ast.Name) and v.func.id in helpers:
+                                # `self.severity = _default_change_severity(old, new)`: BREAKING when the element BECOMES required
+                                dynamic = helpers[v.func.id]
+                                continue
                             if not (isinstance(v, ast.IfExp) and isinstance(v.test, ast.Attribute) and v.test.attr == "required"):
                                 raise py2lean.Untranslatable("dynamic severity of %s is not `X if <arg>.required else Y`" % n.name)
                             dynamic = (sev_values[v.body.attr], sev_values[v.orelse.attr])
@@ -194,7 +217,11 @@ def run(ctx):
 
     # --- severity table: extracted table vs live classes -------------------------------
     import py_gql.schema.differ.changes as changes
-    sev, rows = severity_table()
+    try:
+        sev, rows = severity_table()
+    except Exception as e:  # noqa  (already reported as a broken obligation by `extract`; the direct oracle must still run)
+        ctx.notes.append("severity table not extractable in run(): %s" % e)
+        rows = []
     for name, static, dynamic in rows:
         ctx.count()
         cls = getattr(changes, name)
